@@ -31,7 +31,7 @@ import (
 
 const db = "db0"
 
-var layouts = []string{"mem", "flushed", "mixed", "compacted"}
+var layouts = []string{"mem", "flushed", "mixed", "compacted", "ordered4"}
 var ptnums = []int{1, 3}
 
 type settings struct {
@@ -179,6 +179,41 @@ func (rn *runner) load(s *proc.Server, d *dataset, layout string) error {
 		return nil
 	}
 	var steps []string
+	if layout == "ordered4" {
+		// ingestion in time order with periodic flushes: the rows sorted by time and cut at
+		// four timestamps; four slices become ordered files one after the other (several per
+		// shard), the newest slice stays in the memtable. Rows of one (series,timestamp) share
+		// a slice, so every row is still written in exactly one flush generation.
+		var all []model.Point
+		for _, part := range d.Parts {
+			all = append(all, part...)
+		}
+		sort.SliceStable(all, func(i, j int) bool { return all[i].T < all[j].T })
+		lo := 0
+		for k := 1; k <= 5; k++ {
+			hi := len(all) * k / 5
+			for hi < len(all) && hi > 0 && all[hi].T == all[hi-1].T {
+				hi++
+			}
+			if k == 5 {
+				hi = len(all)
+			}
+			if hi > lo {
+				for _, b := range batches(all[lo:hi], 250) {
+					if wr := s.Write(db, model.LPBatch(b), nil); !wr.Acked() {
+						return fmt.Errorf("write not acknowledged: %d %s %v", wr.Status, wr.Body, wr.Err)
+					}
+				}
+			}
+			lo = hi
+			if k < 5 {
+				if err := s.Flush(); err != nil {
+					return fmt.Errorf("flush: %v", err)
+				}
+			}
+		}
+		return nil
+	}
 	switch layout {
 	case "mem":
 		steps = []string{"base", "late", "tail"}
@@ -311,6 +346,8 @@ func (rn *runner) runServer(d *dataset, qs []*querySpec, cells [][]cell, groups 
 		reached = l.ActiveMem && l.Ordered > 0 && l.Unordered > 0
 	case "compacted":
 		reached = !l.ActiveMem && l.Ordered > 0 && l.Unordered == 0
+	case "ordered4":
+		reached = l.ActiveMem && l.Ordered >= 4 && l.Unordered == 0
 	}
 	if !reached {
 		// the answers are still judged (same logical contents), but the layout cell is not what it claims
@@ -512,11 +549,17 @@ func main() {
 				cells[i][ci].Inner = probeInner[ci%len(probeInner)]
 			}
 		}
+		// every 6th query (phase 3) is a paging probe: a LIMIT/OFFSET window placed anywhere
+		// in the answer of one series (or of all of them), so that windows straddle the
+		// boundaries between files, shards and the memtable
+		for i := 3; i < nq; i += 6 {
+			qs[i] = genPageProbe(qr, d, i/6)
+		}
 		slot := <-sem
 		wg.Add(1)
 		go func(d *dataset, slot int) {
 			defer func() { sem <- slot; wg.Done() }()
-			rn.runDataset(d, qs, cells, groups, slot*8)
+			rn.runDataset(d, qs, cells, groups, slot*len(layouts)*len(ptnums))
 		}(d, slot)
 	}
 	wg.Wait()
